@@ -69,6 +69,11 @@ CHECKS = {
     technique='complete enumeration of the configuration product at the session seam (certificate shape x EKU x client-auth flag x plugin configuration x scripted SLUGS HTTP behaviours x request) on a real KmipSession with a spy in front of a real engine, against a reference of when an identity is established',
     text='The complete product of 10 certificate shapes (absent; 0, 1, 2 common names x EKU absent / serverAuth / clientAuth), enable_tls_client_auth on/off, 54 (quick) / 175 (thorough) plugin configurations (none, empty, disabled block, unsupported plugin, missing URL, wrong-case flag, one SLUGS block with each of 11 scripted HTTP behaviours - 200 with groups [], [g], several, missing key; user 404; groups 404; connection error on the first/second call; non-JSON body; HTTP 500 on either lookup - two and three blocks in all orders, enabled/disabled/unsupported mixes) and 3-5 requests is run through the real _handle_message_loop. The engine must be entered exactly once with exactly the established (common name, groups) identity when the reference says an identity is established, and never otherwise; then the answer must be AUTHENTICATION_NOT_SUCCESSFUL and the raw database unchanged.',
     note='SLUGS is replaced by scripted answers of the requests module inside auth/slugs.py; certificate validation by the ssl module itself is outside the session code. A SLUGS service is taken to vouch only with HTTP 200 on both lookups.'),
+ 'C13': dict(
+    category='exploration', design_ref='DESIGN.md 4/C13',
+    technique='deviation-bounded exhaustive grid of well-formed requests (operation x stored object kind x lifecycle state x KMIP version x per-operation parameter menu with one deviation from a valid request) executed on clones of a real store through the real session+engine',
+    text='About 35k (quick) / 90k (thorough) requests, each encoded and re-decoded by the library\'s own codec (so well-formed by construction): for every object kind in pre-active and active state (plus keys without usage mask, deactivated, compromised) and a non-existent identifier, every addressing operation with its parameter menu - each key format / compression / wrapping method / mode / encoding variant of Get, every attribute name of the rule table and names outside it for Get/Modify/Set/DeleteAttribute with index menus in 1.x and 2.0 form, every member of the algorithm, block mode, padding, hashing, digital-signature and derivation enumerations (supported or not) for Encrypt/Decrypt/Sign/SignatureVerify/MAC/DeriveKey, IV/tag/data/signature length menus, absent optional parameters - plus object-free operations (Create and CreateKeyPair over every algorithm x length, Register of every kind with consistent and contradictory attributes, Locate with every attribute and paging extremes, Query, DiscoverVersions, operations the server does not implement). No answer may be General Failure and the engine\'s catch-all log record must not appear.',
+    note='One deviation per probe; pairs of unusual parameters are not covered. Two genuine General Failure answers are recorded as open known findings (their repair is not small); 14 others were repaired in /repo.'),
 }
 
 NOT_YET = {}
